@@ -67,10 +67,12 @@ func awaitVariants(src string) []string {
 			prev = t
 		}
 	}
-	if len(idx) == 0 || len(idx) > 6 {
-		return nil
+	if len(idx) > 6 {
+		idx = idx[:6]
 	}
 	var out []string
+	// plain textual replacement too (reaches `await` inside template literals, which the crude tokenizer keeps whole)
+	out = append(out, reAwaitIdent.ReplaceAllString(reAwaitIdent.ReplaceAllString(src, "${1}awa1t${3}"), "${1}awa1t${3}"))
 	for mask := (1 << uint(len(idx))) - 1; mask >= 1; mask-- {
 		cp := append([]string{}, toks...)
 		for k, i := range idx {
@@ -159,6 +161,26 @@ func c13Inputs(r *Run) []c13Case {
 	}
 	for _, s := range rareSeeds {
 		cases = append(cases, c13Case{Src: s.Src, Loader: "js", Origin: "rare"})
+	}
+	// literal adjacency table: every interesting code unit followed by every interesting character, in every quoting
+	// context, in sloppy and strict code (escapes such as \0 followed by a digit must stay valid in both)
+	{
+		first := []string{`\0`, `\x00`, `\u0000`, `\u{0}`, `\x01`, `\b`, `\t`, `\n`, `\v`, `\f`, `\r`, `\x1b`, `\x7f`, `\x80`, `\xa0`, `\u2028`, `\u2029`, `\ufeff`, `\ud800`, `\udc00`, `\\`, `\'`, `\"`, "\\`", `$`, `{`, `\u{1F600}`, `\ud83d`, `<`, `</`, `<!-`, `-->`}
+		second := []string{"0", "1", "7", "8", "9", "a", "x", "u", "{", `\\`, `\'`, `\"`, "\\`", "$", "${", `\n`, "", `\ude00`, "/script>", "-", "!--"}
+		for _, f := range first {
+			for _, sn := range second {
+				body := f + sn
+				lits := []string{`"` + body + `"`, `'` + body + `'`}
+				if !strings.Contains(sn, "${") {
+					lits = append(lits, "`"+body+"`", "tag`"+body+"`")
+				}
+				for _, l := range lits {
+					cases = append(cases, c13Case{Src: "x = " + l + ";", Loader: "js", Origin: "literal-adjacency"})
+					cases = append(cases, c13Case{Src: "export const x = " + l + ";", Loader: "js", Origin: "literal-adjacency"})
+					cases = append(cases, c13Case{Src: "class C { m() { return " + l + "; } }", Loader: "js", Origin: "literal-adjacency"})
+				}
+			}
+		}
 	}
 	// rare seeds under every wrapper
 	for _, s := range rareSeeds {
